@@ -167,7 +167,7 @@ macro_rules! arr_elem {
         }
     )*};
 }
-arr_elem!(16, 32);
+arr_elem!(16, 32, 3, 12);
 
 /// derived wrappers (the "derived wrappers" of C03/C17)
 #[derive(Debug, Clone, Copy, PartialEq, vecdb::Pco)]
